@@ -208,8 +208,9 @@ namespace avel {
     [[nodiscard]]
     AVEL_FINL std::uint8_t bit_ceil(std::uint8_t x) {
         #if defined(AVEL_LZCNT)
-        auto sh = (32 - _lzcnt_u32(x - 1));
-        auto result = 1 << sh;
+        // x - (x != 0) keeps bit_ceil(0) == 1 and the shift amount below 32
+        auto sh = (32 - _lzcnt_u32(std::uint32_t(x) - (x != 0)));
+        auto result = std::uint32_t(1) << sh;
         return result;
 
         #elif defined(AVEL_X86) && (defined(AVEL_GCC) || defined(AVEL_CLANG) || defined(AVEL_ICPX))
